@@ -182,7 +182,7 @@ Print Assumptions C08_negative_nx.
 
 (* ... and is invisible to the entire future: deleting that Store from the history changes no later output *)
 Theorem C08_negative_noop : forall mx st t eps k m pk e evs,
-  negative m = true -> find k (st_map st) = Some e ->
+  negative m = true -> cp_find k (st_map st) = Some e ->
   exists o, cp_run mx st (EvStore t eps k (Some m) pk :: evs) =
             (fst (cp_run mx st evs), o :: snd (cp_run mx st evs)) /\ (o = OSkipped \/ o = OKept (msg_lifetime mx m)).
 Proof. exact negative_store_noop. Qed.
